@@ -5,6 +5,7 @@ import (
 	"go/token"
 	"go/types"
 	"sort"
+	"strings"
 
 	"golang.org/x/tools/go/ssa"
 )
@@ -230,6 +231,7 @@ func runC02(c *Ctx) {
 	r.Rule("R2", "every invocation of handler code is under a deferred call of Config.Recover, one handler per frame; the default hook calls recover() directly and invokes no method of the recovered value")
 	r.Rule("R3", "in the receive goroutine the only exits of the read loop are on the error result of the framing read; a line the parser rejects returns to the loop head")
 	r.Rule("R4", "no lock is acquired while already held in any function of the unprotected region or in the tracker (a self-deadlock stops line processing without a panic)")
+	r.Rule("R5", "the connection goroutines never start with a nil reader/writer or socket: every member spawn is dominated by a store of bufio.NewReadWriter(...) to the buffered-I/O field, and every path of the connect routine from the per-connection reset to the spawning call stores a dialled socket")
 
 	region := c.unprotectedRegion()
 	p := c.NewProver()
@@ -241,6 +243,7 @@ func runC02(c *Ctx) {
 		}
 		names = append(names, c.FuncKey(fn))
 		r.Funcs[c.FuncKey(fn)] = true
+		c.recordSpan(fn)
 		obs := c.panicObligations(fn)
 		// stable ordinal per kind within the function
 		cnt := map[string]int{}
@@ -248,6 +251,7 @@ func runC02(c *Ctx) {
 		for _, ob := range obs {
 			nOb++
 			cnt[ob.Kind]++
+			c.recordObLine(ob.In)
 			ok, why := c.discharge(p, ob)
 			key := fmt.Sprintf("%s:%s#%d", c.FuncKey(fn), ob.Kind, cnt[ob.Kind])
 			if chain := c.ChainString(region.Funcs[fn]); chain != "" && !ok {
@@ -321,6 +325,9 @@ func runC02(c *Ctx) {
 			r.Floor("R3", "parser call in the receive goroutine", nParse, 1)
 		}
 	}
+
+	// R5
+	c.connPointersRule("R5")
 
 	// R4
 	var funcs []*ssa.Function
@@ -415,10 +422,12 @@ func runC11(c *Ctx) {
 			continue
 		}
 		r.Funcs[c.FuncKey(fn)] = true
+		c.recordSpan(fn)
 		cnt := map[string]int{}
 		for _, ob := range c.panicObligations(fn) {
 			n1++
 			cnt[ob.Kind]++
+			c.recordObLine(ob.In)
 			ok, why := c.discharge(p, ob)
 			r.Add("R1", fmt.Sprintf("%s:%s#%d", c.FuncKey(fn), ob.Kind, cnt[ob.Kind]), c.InstrPos(ob.In), c.FuncKey(fn), ob.Kind+" in bounds: "+ob.Desc, ok, why)
 		}
@@ -651,4 +660,150 @@ func (c *Ctx) dependsOn(v, target ssa.Value, depth int) bool {
 		return c.dependsOn(t.X, target, depth+1)
 	}
 	return false
+}
+
+// recordSpan / recordObLine feed the thorough tier's coverage cross-check
+// against the compiler's list of bounds checks it could not eliminate.
+func (c *Ctx) recordSpan(fn *ssa.Function) {
+	syn := fn.Syntax()
+	if syn == nil {
+		return
+	}
+	a, b := c.Fset.Position(syn.Pos()), c.Fset.Position(syn.End())
+	rel := c.Pos(syn.Pos())
+	if i := strings.Index(rel, ":"); i >= 0 {
+		rel = rel[:i]
+	}
+	c.R.RegionSpans = append(c.R.RegionSpans, Span{File: rel, Start: a.Line, End: b.Line, Func: c.FuncKey(fn)})
+}
+
+func (c *Ctx) recordObLine(in ssa.Instruction) {
+	pos := c.InstrPos(in)
+	parts := strings.Split(pos, ":")
+	if len(parts) >= 2 {
+		c.R.ObLines[parts[0]+":"+parts[1]] = true
+	}
+}
+
+// connPointersRule (C02.R5): members are spawned only after io and sock were set.
+func (c *Ctx) connPointersRule(rule string) {
+	r, a := c.R, c.A
+	n := 0
+	var spawner *ssa.Function
+	for _, m := range a.Members {
+		for _, g := range c.GoSites(m) {
+			n++
+			spawner = g.Parent()
+			ok := c.domInterproc(g.Parent(), g, func(in ssa.Instruction) bool {
+				s, isS := in.(*ssa.Store)
+				if !isS {
+					return false
+				}
+				if fv, _ := fieldOf(s.Addr); fv != a.IO {
+					return false
+				}
+				call, isC := s.Val.(*ssa.Call)
+				return isC && calleeName(&call.Call) == "bufio.NewReadWriter"
+			}, 0)
+			r.Add(rule, "io-set-before-spawn:"+c.FuncKey(m), c.InstrPos(g), c.FuncKey(g.Parent()), "the goroutine starts only after the buffered reader/writer was created", ok, "store of bufio.NewReadWriter(...) to the I/O field dominates the go statement")
+		}
+	}
+	r.Floor(rule, "member spawn sites", n, 3)
+	if spawner == nil {
+		return
+	}
+	// in the connect routine: from entry, every path to the call that spawns passes a store to sock of a non-nil-by-contract value
+	cn := a.Connect
+	var spawnCalls []ssa.Instruction
+	reach := c.Closure([]*ssa.Function{cn}, func(from *ssa.Function, e Edge) bool {
+		return !e.Site.Common().IsInvoke() && e.Kind != EdgeGo && e.Callee.Package() == c.Client
+	})
+	if spawner == cn {
+		for _, m := range a.Members {
+			for _, g := range c.GoSites(m) {
+				spawnCalls = append(spawnCalls, g)
+			}
+		}
+	} else {
+		for _, cs := range CallSites(cn) {
+			cal := cs.Common().StaticCallee()
+			if cal == nil {
+				continue
+			}
+			sub := c.Closure([]*ssa.Function{cal}, func(from *ssa.Function, e Edge) bool {
+				return !e.Site.Common().IsInvoke() && e.Kind != EdgeGo && e.Callee.Package() == c.Client
+			})
+			if _, ok := sub.Funcs[spawner]; ok {
+				spawnCalls = append(spawnCalls, cs)
+			}
+		}
+	}
+	_ = reach
+	isSockStore := func(in ssa.Instruction) bool {
+		s, isS := in.(*ssa.Store)
+		if !isS {
+			return false
+		}
+		if fv, _ := fieldOf(s.Addr); fv != a.Sock {
+			return false
+		}
+		return !isNilConst(s.Val)
+	}
+	for i, sc := range spawnCalls {
+		ok := SetDominates(cn, isSockStore, sc)
+		r.Add(rule, fmt.Sprintf("sock-set-before-spawn#%d", i+1), c.InstrPos(sc), c.FuncKey(cn), "the goroutines are started only after a socket was stored", ok, "every path to the spawning call stores a non-nil-constant value to the socket field")
+	}
+	r.Floor(rule, "calls in the connect routine that start the goroutines", len(spawnCalls), 1)
+	// nil stores to io/sock only happen in the per-connection reset that precedes them (C06.R5 places it after the refusals)
+	for _, fn := range c.clientFuncs() {
+		funcInstrs(fn, func(in ssa.Instruction) {
+			s, isS := in.(*ssa.Store)
+			if !isS || !isNilConst(s.Val) {
+				return
+			}
+			fv, base := fieldOf(s.Addr)
+			if fv != a.IO && fv != a.Sock {
+				return
+			}
+			if c.allOriginsLocalAlloc(base, fn) {
+				return
+			}
+			// must be reachable only from the connect routine, before the socket store
+			okC, why := c.afterRefusals(fn, in)
+			if okC {
+				// and a socket store follows on every path to the spawn (checked above); the nil store must not be after the spawning call
+				for _, sc := range spawnCalls {
+					if fn == cn && ReachFrom(sc, false, nil)[in] {
+						okC, why = false, "reset of the pointer can happen after the goroutines were started"
+					}
+				}
+			}
+			r.Add(rule, "nil-store:"+c.FuncKey(fn)+":"+fv.Name(), c.InstrPos(in), c.FuncKey(fn), "the I/O pointers are reset only by connect initialisation", okC, why)
+		})
+	}
+}
+
+// domInterproc: an instruction satisfying pred executes before `at` on every
+// path - within fn, or (when fn has callers in package client) before every
+// call site of fn, recursively. Test-only entry points (no callers) fail.
+func (c *Ctx) domInterproc(fn *ssa.Function, at ssa.Instruction, pred func(ssa.Instruction) bool, depth int) bool {
+	if SetDominates(fn, pred, at) {
+		return true
+	}
+	if depth > 4 {
+		return false
+	}
+	sites := c.Callers(fn)
+	if len(sites) == 0 {
+		return false
+	}
+	for _, cs := range sites {
+		if _, isGo := cs.(*ssa.Go); isGo {
+			return false
+		}
+		if !c.domInterproc(cs.Parent(), cs, pred, depth+1) {
+			return false
+		}
+	}
+	return true
 }
